@@ -21,7 +21,7 @@ theorem ptAt_of_xMajor {l : Line} (h : ¬ yMajor l) (k : Nat) :
 theorem ptAt_zero (l : Line) : ptAt l 0 = l.start := by
   unfold ptAt ptAtG
   rw [mAt_zero (dmaj_nonneg l)]
-  simp [Pt.ext_iff']
+  simp
 
 theorem dmaj_zero_iff (l : Line) : dmaj l = 0 ↔ l.start = l.stop := by
   unfold dmaj yMajor aabs dxOf dyOf
